@@ -186,3 +186,142 @@ def reachable_under(target, stmt, consts, max_paths=3000):
         if feasible:
             return True, n
     return False, n
+
+
+def may_return_given(func, given, max_states=400):
+    """Can `func` return normally when its parameters have the constant
+    values `given` ({name: python value})?  A small forward evaluation with
+    an environment of known constants (None, booleans, numbers, strings,
+    empty list / tuple): an `if` whose test is decided takes that branch, a
+    `for` over a known-empty sequence is skipped; everything else is
+    explored conservatively (both branches, a loop body zero or more times
+    with the names it binds forgotten).  False means: every way through
+    the function ends in a `raise` - e.g. `_get_rslt_params(None, ...)`
+    normalises None to [], finds no output parameter in it and raises."""
+    budget = [max_states]
+
+    def bound_names(stmts):
+        out = set()
+        for st in stmts:
+            for x in ast.walk(st):
+                if isinstance(x, ast.Name) and \
+                        isinstance(x.ctx, (ast.Store, ast.Del)):
+                    out.add(x.id)
+        return out
+
+    def value(e, env):
+        if isinstance(e, (ast.List, ast.Tuple)) and not e.elts:
+            return ()
+        if isinstance(e, ast.Call) and isinstance(e.func, ast.Name) and \
+                e.func.id in ('list', 'tuple', 'dict', 'set') and \
+                not e.args and not e.keywords:
+            return ()
+        if isinstance(e, ast.Dict) and not e.keys:
+            return ()
+        return evaluate(e, lambda n: env.get(n, UNKNOWN))
+
+    def block(stmts, env):
+        """list of environments with which the block may fall through;
+        raises _Returns when a return is reachable"""
+        envs = [env]
+        for st in stmts:
+            nxt = []
+            for e in envs:
+                nxt += stmt(st, e)
+            envs = nxt
+            if not envs:
+                return []
+            if len(envs) > 8:
+                # merge: keep only what all agree on
+                common = dict(envs[0])
+                for o in envs[1:]:
+                    for k in list(common):
+                        if k not in o or o[k] is not common[k] and \
+                                o[k] != common[k]:
+                            del common[k]
+                envs = [common]
+        return envs
+
+    class _Returns(Exception):
+        pass
+
+    def forget(env, names):
+        env = dict(env)
+        for n in names:
+            env.pop(n, None)
+        return env
+
+    def stmt(st, env):
+        budget[0] -= 1
+        if budget[0] < 0:
+            raise _Returns()          # give up: assume it may return
+        if isinstance(st, ast.Return):
+            raise _Returns()
+        if isinstance(st, ast.Raise):
+            return []
+        if isinstance(st, (ast.FunctionDef, ast.AsyncFunctionDef,
+                           ast.ClassDef, ast.Pass, ast.Import,
+                           ast.ImportFrom, ast.Global, ast.Nonlocal)):
+            return [env]
+        if isinstance(st, ast.Assign):
+            env = dict(env)
+            v = value(st.value, env)
+            for t in st.targets:
+                if isinstance(t, ast.Name):
+                    if v is UNKNOWN:
+                        env.pop(t.id, None)
+                    else:
+                        env[t.id] = v
+                else:
+                    for x in ast.walk(t):
+                        if isinstance(x, ast.Name) and \
+                                isinstance(x.ctx, ast.Store):
+                            env.pop(x.id, None)
+            return [env]
+        if isinstance(st, (ast.AugAssign, ast.AnnAssign, ast.Delete)):
+            return [forget(env, bound_names([st]))]
+        if isinstance(st, ast.If):
+            t = value(st.test, env)
+            if t is UNKNOWN:
+                return block(st.body, env) + block(st.orelse, env)
+            return block(st.body if t else st.orelse, env)
+        if isinstance(st, (ast.For, ast.AsyncFor)):
+            it = value(st.iter, env)
+            if it is not UNKNOWN and isinstance(it, (tuple, str)) and \
+                    len(it) == 0:
+                return block(st.orelse, env)
+            inner = forget(env, bound_names([st]))
+            block(st.body, inner)               # may raise _Returns
+            return block(st.orelse, inner) if st.orelse else [inner]
+        if isinstance(st, ast.While):
+            inner = forget(env, bound_names([st]))
+            block(st.body, inner)
+            return [inner]
+        if isinstance(st, ast.With):
+            return block(st.body, forget(env, bound_names(
+                [ast.Expr(value=i.optional_vars) for i in st.items
+                 if i.optional_vars is not None])))
+        if isinstance(st, ast.Try):
+            inner = forget(env, bound_names(st.body))
+            outs = block(st.body, env)
+            outs2 = []
+            for o in outs:
+                outs2 += block(st.orelse, o) if st.orelse else [o]
+            for h in st.handlers:
+                outs2 += block(h.body, inner)
+            if st.finalbody:
+                fin = []
+                for o in outs2 or [inner]:
+                    fin += block(st.finalbody, o)
+                return fin if outs2 else []
+            return outs2
+        if isinstance(st, (ast.Break, ast.Continue)):
+            return [env]
+        return [env]
+
+    from .model import strip_docstring
+    try:
+        ends = block(strip_docstring(func.node.body), dict(given))
+    except _Returns:
+        return True
+    return bool(ends)
